@@ -60,15 +60,19 @@
 //!              amount sets, deleting an absent level is a no-op), bids strictly descending, asks strictly
 //!              ascending, no price twice"
 //!  R-sequence  "the book's sequence is that of the last applied event"
-//!  R-mid       "best bid/ask, mid-price ... are those of that map" (two-sided: (bb+ba)/2 exactly; one-sided:
+//!  R-mid       "best bid/ask, mid-price ... are those of that map" (two-sided: (bb+ba)/2; one-sided:
 //!              the statement does not define a mid price -> None or the only best price accepted; empty: None)
 //!  R-vwmp      "volume-weighted mid-price" of the map's best levels (either weighting convention accepted:
 //!              micro-price (pb*qa+pa*qb)/(qa+qb) or (pb*qb+pa*qa)/(qa+qb); it must come from the BEST levels)
 //!  R-snapshot  "depth-limited snapshots are those of that map": snapshot(d) == first d levels per side, same
 //!              sequence, for d in 0..=5, around the length of the longer side (half, -1, exact, +1) and
 //!              usize::MAX; a panic of snapshot(d) is a violation
-//! `time_engine` is varied in the inputs but never judged (the statement does not mention it).
+//!  R-mid / R-vwmp compare VALUES: within (|bb|+|ba|)*1e-24 of the reference (a `Decimal` has 28 digits; an
+//!  algebraically equal form of a non-terminating division differs in the last digit) - soundness round.
+//! `time_engine` is varied in the inputs but never judged (the statement does not mention it); the manager layers
+//! (2, 5) compare books with `same_book` (levels + sequence), not with `OrderBook::eq` - soundness round.
 
+use super::c17::{Big, Rat};
 use crate::core::{Ctx, Distinct, Outcome, Samples, hash_of};
 use crate::explore::{
     bfs::{self, BfsStats, Model, Viol},
@@ -389,6 +393,13 @@ fn side_cause(got: &[Level], want: &[(Decimal, Decimal)], descending: bool) -> O
     Some("wrong-amount")
 }
 
+/// What the statement says about a book as a whole: its levels (both sides, in order) and its sequence.
+/// NOT `OrderBook::eq`, which also compares `time_engine` - a field the statement never mentions (a manager may
+/// stamp it, keep the last known one, ...).
+fn same_book(a: &OrderBook, b: &OrderBook) -> bool {
+    a.sequence == b.sequence && a.bids().levels() == b.bids().levels() && a.asks().levels() == b.asks().levels()
+}
+
 /// All observers of the statement on `book`, against the maps `wb`/`wa` and the expected sequence.
 fn check_book(kind: &str, _tag: &str, book: &OrderBook, wb: &PMap, wa: &PMap, want_seq: u64, ctx_txt: &dyn Fn() -> String, out: &mut Vec<Viol>) {
     let want_bids: Vec<(Decimal, Decimal)> = wb.iter().rev().map(|(p, q)| (*p, *q)).collect();
@@ -435,15 +446,51 @@ fn check_book(kind: &str, _tag: &str, book: &OrderBook, wb: &PMap, wa: &PMap, wa
         (Some(x), None) | (None, Some(x)) => (vec![None, Some(x.0)], vec![None, Some(x.0)]),
         (None, None) => (vec![None], vec![None]),
     };
+    // The statement fixes the VALUE (the mean / the amount-weighted mean of the map's two best prices), not a
+    // formula: a `Decimal` holds 28 significant digits, and where the division does not terminate an algebraically
+    // equal form (I*ask + (1-I)*bid with I = qb/(qa+qb), bid + spread/2, ...) differs in the last digit or two.
+    // Accepted: within (|best bid| + |best ask|) * 1e-24 of the reference value (>= 3 decimal orders above any such
+    // rounding, >= 20 orders below the effect of a wrong level / weight / price in any alphabet).
+    let tol = (bb.map_or(Decimal::ZERO, |x| x.0.abs()) + ba.map_or(Decimal::ZERO, |x| x.0.abs())) * Decimal::new(1, 24);
+    let allowed = |got: Option<Decimal>, ok: &[Option<Decimal>]| -> bool {
+        ok.iter().any(|w| match (got, w) {
+            (None, None) => true,
+            (Some(g), Some(w)) => g == *w || g.checked_sub(*w).is_some_and(|d| d.abs() <= tol),
+            _ => false,
+        })
+    };
+    // The reference values above are themselves computed in `Decimal` (the products of the micro-price underflow
+    // when both best amounts are ~1e-28 and the formula then yields 0). A result that is within `tol` of the
+    // EXACT rational value is "that of the map" as well (only evaluated when the comparison above fails).
+    let exact_allowed = |got: Option<Decimal>, vw: bool| -> bool {
+        let (Some(g), Some(b), Some(a)) = (got, bb, ba) else { return false };
+        let int = |x: Decimal| Big::from_i128(x.mantissa()).mul(&Big::pow10(28 - x.scale())); // x * 1e28
+        let (pb, qb, pa, qa) = (int(b.0), int(b.1), int(a.0), int(a.1));
+        let e28 = Big::pow10(28);
+        let wants: Vec<Rat> = if !vw {
+            vec![Rat::new(pb.add(&pa), Big::from_i128(2).mul(&e28))]
+        } else {
+            let den = qa.add(&qb);
+            if den.is_zero() || den.is_neg() {
+                return false;
+            }
+            vec![
+                Rat::new(pb.mul(&qa).add(&pa.mul(&qb)), den.mul(&e28)),
+                Rat::new(pb.mul(&qb).add(&pa.mul(&qa)), den.mul(&e28)),
+            ]
+        };
+        let (g, t) = (Rat::from_decimal(g), Rat::from_decimal(tol));
+        wants.iter().any(|w| g.close(w, &t).0)
+    };
     let mid = book.mid_price();
-    if !mid_ok.contains(&mid) {
+    if !allowed(mid, &mid_ok) && !exact_allowed(mid, false) {
         out.push((
             format!("C05/mid-price/{shape}"),
             format!("{} -> mid_price={mid:?}, map allows {mid_ok:?} (best bid {bb:?}, best ask {ba:?})", ctx_txt()),
         ));
     }
     let vw = book.volume_weighed_mid_price();
-    if !vw_ok.contains(&vw) {
+    if !allowed(vw, &vw_ok) && !exact_allowed(vw, true) {
         out.push((
             format!("C05/volume-weighted-mid-price/{shape}"),
             format!("{} -> volume_weighed_mid_price={vw:?}, map allows {vw_ok:?} (best bid {bb:?}, best ask {ba:?})", ctx_txt()),
@@ -823,7 +870,7 @@ impl MgrModel {
         let mut want = OrderBook::default();
         want.update(self.m.event(&self.menu[ev as usize]));
         let (after, barrier) = self.drive_contended(ev);
-        if after != want {
+        if !same_book(&after, &want) {
             out.push((
                 format!("C05/{tag}/reader-holds-book/event-not-applied"),
                 format!(
@@ -910,7 +957,7 @@ impl SeqModel for MgrModel {
             MSym::Item { .. } => "event-for-configured-instrument".to_string(),
         };
         for i in 0..2usize {
-            if books[i] != s[i] {
+            if !same_book(&books[i], &s[i]) {
                 let own = matches!(sym, MSym::Item { inst, .. } if *inst as usize == i);
                 out.push((
                     format!("C05/{tag}/{what}/{}", if own { "own-book-not-updated-with-the-event" } else { "other-book-changed" }),
@@ -932,7 +979,7 @@ impl SeqModel for MgrModel {
                 Err(_) => out.push((format!("C05/{tag}/burst-delivery/panic"), format!("manager or book panicked on {all:?} queued at once"))),
                 Ok(burst) => {
                     for i in 0..2usize {
-                        if burst[i] != s[i] {
+                        if !same_book(&burst[i], &s[i]) {
                             out.push((
                                 format!("C05/{tag}/burst-delivery/book-differs-from-its-events-applied-in-order"),
                                 format!("deliveries {all:?} queued before the manager was polled: book of instrument {i} is {:?}, its own events applied one by one give {:?}", burst[i], s[i]),
@@ -1521,7 +1568,8 @@ pub fn run(ctx: &Ctx) -> Outcome {
             "snapshots are well-formed (distinct prices, positive amounts); duplicates and zero amounts only inside updates".into(),
             "a price repeated inside one update is applied in list order (the later entry wins), as a map fed the list would".into(),
             "one-sided book: mid / volume-weighted mid may be None or the only best price (the statement does not define it); volume weighting: either convention accepted".into(),
-            "time_engine is not judged (not mentioned by the statement)".into(),
+            "time_engine is not judged (not mentioned by the statement), neither in the manager layers (books are compared by levels and sequence)".into(),
+            "mid-price and volume-weighted mid-price are compared as values: within (|best bid| + |best ask|) * 1e-24 of the reference formula or of the exact rational value".into(),
             "events are built with OrderBook::new as every connector does; value alphabets avoid Decimal overflow".into(),
             "an update may carry any number of levels and a book may receive any number of events (layers 6 and 7 go to the stated bounds)".into(),
             "bids and asks are independent maps: a crossed book (bid >= ask) keeps every level of both sides".into(),
